@@ -1490,8 +1490,9 @@ func (gqm *GroupQuotaManager) deleteQuotaNoLock(quota *v1alpha1.ElasticQuota) er
 	// update resource keys
 	gqm.updateResourceKeyNoLock()
 
-	// update request
-	deltaReq := quotav1.Subtract(v1.ResourceList{}, quotaInfo.CalculateInfo.Request)
+	// update request. The parent only ever received the max-limited request of this quota
+	// (see recursiveUpdateGroupTreeWithDeltaRequest), so that is what has to be taken back.
+	deltaReq := quotav1.Subtract(v1.ResourceList{}, quotaInfo.getLimitRequestNoLock())
 	deltaNonPreemptibleRequest := quotav1.Subtract(v1.ResourceList{}, quotaInfo.CalculateInfo.NonPreemptibleRequest)
 	if !quotav1.IsZero(deltaReq) || !quotav1.IsZero(deltaNonPreemptibleRequest) {
 		gqm.updateGroupDeltaRequestNoLock(quotaInfo.ParentName, deltaReq, deltaNonPreemptibleRequest, -1)
